@@ -93,6 +93,15 @@ class World:
         if self.with_entry:
             entries = [("find", 0x4242, 0xFFFF, 0xFF, 3, 0xFFFFFFFF, (), ())]
         data = refcodec.sd_message(sid, entries, reboot=bool(flag), unicast=bool(uflag))
+        prefix = letter[5] if len(letter) > 5 else 0
+        if prefix == 1:
+            # an SD message whose payload does not decode (entries array longer than the payload) in front, same datagram
+            data = refcodec.enc_someip(0xFFFF, 0x8100, 0, 0x5555, 1, 2, 0, bytes([0xC0, 0, 0, 0, 0, 0, 0, 0x10])) + data
+        elif prefix == 2:
+            data = refcodec.enc_someip(0x1234, 0x0001, 0, 0x5555, 1, 0, 0, b"not for you") + data
+        elif prefix == 3:
+            # ... and behind it
+            data = data + refcodec.enc_someip(0xFFFF, 0x8100, 0, 0x5555, 1, 2, 0, bytes([0xC0, 0, 0, 0, 0, 0, 0, 0x10]))
         self.calls.clear()
         self.returns.clear()
         exc = None
@@ -226,6 +235,8 @@ def check(ctx):
         ("ipv6-same-host-other-scope-depth-3", letters("RST", (1,)), 3, False),
         # messages whose SD unicast flag is clear: their entries are ignored (C03), the sender's reboot is not
         ("one-sender-unicast-flag-set-or-clear-closure", [l + (u,) for l in letters("P", (0, 1)) for u in (0, 1)], 10 ** 6, True),
+        # the message shares its datagram with an undecodable SD message / a foreign message in front of it or behind it
+        ("one-sender-datagram-neighbours-closure", [l + (1, p) for l in letters("P", (0, 1)) for p in (0, 1, 2, 3)], 10 ** 6, True),
         # the receiving endpoint is started late, or stopped and started again, between messages
         ("one-sender-endpoint-lifecycle-closure", letters("P", (0, 1)) + [("@", 0, 0, 0)], 10 ** 6, False),
     ]
